@@ -156,7 +156,10 @@ for _cid, _file, _fn in (("file", "hed/schema/schema_io/base2schema.py", "Schema
     contract("C13.loader_" + _cid, file=_file, func=_fn, params={}, returns="HedSchemaNS", enc="native", trusted=True,
              ensures={"new_unprefixed": "fresh(result) and len(result._namespace) == 0"}, assume=LOADED)
 contract("C13.loader_string", file="hed/schema/hed_schema_io.py", func="from_string", params={}, returns="HedSchemaNS", enc="native",
-         trusted=True, ensures={"new_unprefixed": "fresh(result) and len(result._namespace) == 0"}, assume=LOADED)
+         trusted=True, ensures={"new_unprefixed": "fresh(result) and len(result._namespace) == 0"},
+         assume=list(LOADED) + ["this summary is only valid for a call that passes no schema_namespace - its one call site in load_schema; "
+                                "from_string sets the prefix itself when one is passed (proved from the body in conditional form: "
+                                "C13.w13.schema_from_text_is_new_and_carries_the_prefix_asked_for)"])
 contract("C13.loaded_schema_carries_the_prefix_asked_for", file="hed/schema/hed_schema_io.py", func="load_schema",
          params={"hed_path": "Str", "schema_namespace": "Opt[Str]", "schema": "Opaque", "name": "Opaque"}, returns="HedSchemaNS",
          enc="native", raises={"HedFileError": True},
